@@ -317,11 +317,18 @@ def verify(E, c, verbose=False):
     """prove every clause of contract c on the real body of c.func"""
     res = FnResult(c)
     t0 = time.time()
-    fn = E.lookup_qual(c.func)
+    try:
+        fn = E.lookup_qual(c.func)
+    except (PyRaise, Unsupported, KeyError):
+        fn = None
     if isinstance(fn, VBM):
         fn = fn.fn
     if not isinstance(fn, VFn):
-        raise Unsupported('%s is not a function' % c.func)
+        # the function this contract is written for does not exist (any more) in the source: nothing can be proved about
+        # it -- undecided, never a silent pass and not a checker crash
+        res.unsupported.append('the function %s under contract does not exist in the source tree' % c.func)
+        res.src = ('<missing>', 0, '')
+        return res
     res.src = (fn.mod.path, fn.node.lineno, ast.dump(fn.node))
     ens_nodes = {k: _parse(v) for k, v in c.ensures.items()}
     exc_nodes = {k: _parse(v) for k, v in c.exc_ensures.items()}
